@@ -177,6 +177,8 @@ def build(run):
     crate11, lemma11 = navbraille_lemma(run)
     run.kani(crate11, [lemma11], timeout=600)
     separator_lemma(run)
+    crate12, lemma12 = presentation_lemma(run)
+    run.kani(crate12, [lemma12], timeout=600)
     crate8, lemma8 = marker_lemma(run)
     run.kani(crate8, [lemma8], timeout=600)
     crate7, lemma7 = attach_lemma(run)
@@ -370,6 +372,79 @@ def separator_lemma(run):
         reach = "(ite (= v %s) %s v)" % (smt_str(""), smt_str(slicer.unquote(mg.group(1)))) if mg else "v"
         run.smt(lid, "(declare-const v String)\n(assert (= (str.len %s) 0))" % reach, get=("v",), witness=w,
                 claim="no accepted value of %s makes the character class of %s empty" % (pref, pname))
+
+
+# ======================================================================================================================
+# K-C08-o: get_presentation_element (used by assure_mathml and by the <semantics> arm) never panics, whatever the annotations hold
+PRES_SHIM = r"""
+use core::marker::PhantomData;
+#[derive(Clone, Copy, PartialEq, Debug)] pub struct Element<'a> { id: u8, p: PhantomData<&'a ()> }
+#[derive(Clone, Copy, PartialEq, Debug)] pub enum ChildOfElement<'a> { Element(Element<'a>), Text }
+impl<'a> ChildOfElement<'a> { pub fn element(&self) -> Option<Element<'a>> { match self { ChildOfElement::Element(e) => Some(*e), _ => None } } pub fn text(&self) -> Option<()> { match self { ChildOfElement::Text => Some(()), _ => None } } }
+pub struct Kids<'a> { k: [ChildOfElement<'a>; 3], n: usize }
+impl<'a> core::ops::Deref for Kids<'a> { type Target = [ChildOfElement<'a>]; fn deref(&self) -> &[ChildOfElement<'a>] { &self.k[..self.n] } }
+/// element 0 = <semantics> with NSEM children (elements 1..=3); child c has kind KIND[c] (0 = mi, 1 = annotation, 2 = annotation-xml), an encoding
+/// attribute ENC[c] (0 none, 1 MathML-Presentation, 2 another) and content CONTENT[c] (0 nothing, 1 one element, 2 two elements, 3 one text node)
+static mut NSEM: usize = 0;
+static mut KIND: [u8; 4] = [0; 4];
+static mut ENC: [u8; 4] = [0; 4];
+static mut CONTENT: [u8; 4] = [0; 4];
+fn el<'a>(id: u8) -> Element<'a> { Element { id, p: PhantomData } }
+impl<'a> Element<'a> {
+    pub fn children(&self) -> Kids<'a> {
+        let t = ChildOfElement::Text;
+        if self.id == 0 { Kids { k: [ChildOfElement::Element(el(1)), ChildOfElement::Element(el(2)), ChildOfElement::Element(el(3))], n: unsafe { NSEM } } }
+        else if self.id <= 3 { match unsafe { CONTENT[self.id as usize] } { 0 => Kids { k: [t, t, t], n: 0 }, 1 => Kids { k: [ChildOfElement::Element(el(10 + self.id)), t, t], n: 1 },
+                                                                          2 => Kids { k: [ChildOfElement::Element(el(10 + self.id)), ChildOfElement::Element(el(20 + self.id)), t], n: 2 }, _ => Kids { k: [t, t, t], n: 1 } } }
+        else { Kids { k: [t, t, t], n: 0 } }
+    }
+    pub fn attribute_value(&self, _n: &str) -> Option<&'static str> { if self.id >= 1 && self.id <= 3 { match unsafe { ENC[self.id as usize] } { 1 => Some("MathML-Presentation"), 2 => Some("application/x-tex"), _ => None } } else { None } }
+}
+fn name<'a>(e: &Element<'a>) -> &'static str { if e.id == 0 { "semantics" } else if e.id <= 3 { match unsafe { KIND[e.id as usize] } { 0 => "mi", 1 => "annotation", _ => "annotation-xml" } } else { "mi" } }
+/// canonicalize::as_element: panics on a child that is not an element
+fn as_element<'a>(c: ChildOfElement<'a>) -> Element<'a> { match c { ChildOfElement::Element(e) => e, _ => { assert!(false, "as_element: internal error -- found non-element child"); el(99) } } }
+macro_rules! debug { ($($t:tt)*) => {}; }
+"""
+
+PRES_HARNESS = r"""
+HARNESS(presentation_element_is_total, 22) {
+    unsafe {
+        NSEM = 1 + sym::below(3);
+        let mut c = 1;
+        while c <= 3 { KIND[c] = sym::below(3) as u8; ENC[c] = sym::below(3) as u8; CONTENT[c] = sym::below(4) as u8;
+                       sym::assume(KIND[c] != 0 || (ENC[c] == 0 && CONTENT[c] == 3));          // an <mi> is a leaf without encoding
+                       sym::assume(KIND[c] != 1 || CONTENT[c] == 3 || CONTENT[c] == 0);         // <annotation> holds text
+                       c += 1; }
+    }
+    let (i, e) = get_presentation_element(el(0));
+    cover!(unsafe { NSEM == 2 && KIND[2] == 2 && ENC[2] == 1 && CONTENT[2] == 2 }, "MathML-Presentation annotation with two children reachable");
+    cover!(unsafe { KIND[1] == 1 && ENC[1] == 1 && CONTENT[1] == 3 }, "<annotation encoding='MathML-Presentation'> holding text reachable");
+    assert!(i < unsafe { NSEM }, "index of the presentation child outside the children of <semantics>");
+    let _ = e;
+}
+"""
+
+
+def api_presentation(vals=None, out=None):
+    res = mcprobe([("mathml", "<math><semantics><annotation-xml encoding='MathML-Presentation'><mi>a</mi><mi>b</mi></annotation-xml></semantics></math>"),
+                   ("mathml", "<math><semantics><annotation-xml encoding='MathML-Presentation'></annotation-xml></semantics></math>"),
+                   ("mathml", "<math><semantics><annotation encoding='MathML-Presentation'>text</annotation></semantics></math>"),
+                   ("mathml", "<math><semantics><mi>x</mi><annotation-xml encoding='MathML-Presentation'><mi>a</mi></annotation-xml></semantics></math>")])
+    return any(r[0] in ("PANIC", "ABORT") for r in res), {"script": "set_mathml(<semantics> whose MathML-Presentation annotation has two / no element children, or is an <annotation> holding text): an error or a result, not a panic", "results": [(r[0], str(r[1])[:120]) for r in res]}
+
+
+def presentation_lemma(run):
+    c = slicer.Source.get("src/canonicalize.rs")
+    f = c.find("fn get_presentation_element")
+    run.uses(f)
+    helpers = slicer.called_helpers(c, f.text, PRES_SHIM + "fn get_presentation_element")
+    run.uses(*helpers)
+    crate = kani_run.Crate("c08pres", PRES_SHIM + f.text.replace("pub fn get_presentation_element(element: Element) -> (usize, Element)", "pub fn get_presentation_element<'a>(element: Element<'a>) -> (usize, Element<'a>)") + "\n" + "\n".join(h.text for h in helpers) + PRES_HARNESS)
+    run.bound("K-C08-o", "get_presentation_element verbatim; <semantics> with 1..3 children, each an mi / annotation / annotation-xml, with no / the MathML-Presentation / another encoding, holding nothing, one element, two elements or a text node")
+    run.assume("K-C08-o: sxd_document elements reduced to (kind, encoding, content shape); as_element panics on a non-element child as the real function does")
+    return crate, dict(id="K-C08-o.presentation_element_total", harness="presentation_element_is_total", api=lambda v, o: api_presentation(),
+                       role=lambda v, o: "presentation-annotation-shape-panics", covers=["MathML-Presentation annotation with two children reachable", "<annotation encoding='MathML-Presentation'> holding text reachable"],
+                       claim="get_presentation_element returns a child of <semantics> for every annotation shape: no assert / as_element panic")
 
 
 # ======================================================================================================================
